@@ -17,14 +17,17 @@ structure Chain where
   bad : Bool                            -- a block without inner nodes that does not join exactly two articulation points
 deriving Repr
 
-def chainOf (nb : V → List V) (comp : List V) : Chain :=
-  let aps := cutVertices nb comp
-  let bl := blocks nb comp
+/-- the chain elements determined by a list of blocks and a list of articulation points -/
+def chainOfBlocks (bl : List (List V)) (aps : List V) : Chain :=
   let parts := bl.map (fun b => (b.filter (fun v => !aps.contains v), b.filter (fun v => aps.contains v)))
   { aps := aps,
     bubbles := parts.filter (fun p => !p.1.isEmpty),
     bridges := (parts.filter (fun p => p.1.isEmpty)).filterMap (fun p => match p.2 with | [a, b] => some (a, b) | _ => none),
     bad := (parts.filter (fun p => p.1.isEmpty)).any (fun p => p.2.length != 2) }
+
+/-- … of a component, from the definition-level decomposition (cut vertices, blocks) -/
+def chainOf (nb : V → List V) (comp : List V) : Chain :=
+  chainOfBlocks (blocks nb comp) (cutVertices nb comp)
 
 /-- degree of a scaffold node / of bubble `i` in the collapsed graph -/
 def degAp (c : Chain) (a : V) : Nat :=
